@@ -316,7 +316,9 @@ func r14_4(c *Ctx) {
 	// isSingleLine
 	isl := P.Fn("isSingleLine")
 	if isl == nil {
-		c.anchor("isSingleLine")
+		// the predicate was merged into its caller: its definition (NewlineIndex(v).length == 0) is then
+		// recognised directly where it guards a store (R14.1)
+		c.ok("isSingleLine", "-", "no isSingleLine helper: the length test is checked where it guards a store (R14.1)")
 	} else {
 		good := false
 		for _, ret := range returnsOf(isl) {
